@@ -800,7 +800,11 @@ impl Subject {
                         Ttl::Hour => cache.put_with_ttl(key, v.clone(), Duration::from_secs(3600)).await,
                         Ttl::Max => {
                             tally(SEEN_MAX_TTL_PUT);
-                            cache.put_with_ttl(key, v.clone(), Duration::MAX).await
+                            // two members of "beyond the clock": the largest Duration, and (size class
+                            // 100) the largest whole number of milliseconds a u64 holds — added to the
+                            // current time it no longer fits the expiry field of a cache file
+                            let far = if *size == 100 { Duration::from_millis(u64::MAX) } else { Duration::MAX };
+                            cache.put_with_ttl(key, v.clone(), far).await
                         }
                     };
                     match r {
@@ -1223,7 +1227,7 @@ fn disk_ttl_subject(subdirs: bool, seed: u64) -> Subject {
     s.sizes = vec![100];
     s.sizes_ttl0 = vec![1];
     s.sizes_hour = vec![];
-    s.sizes_max = vec![1];
+    s.sizes_max = vec![1, 100];
     s
 }
 
@@ -1285,7 +1289,8 @@ pub fn run(tier: Tier, seed: u64) -> i32 {
             subjects.push((mem_subject(TtlPol, 2, None, 3, seed, false), 4));
             subjects.push((mem_subject(Lru, UNLIMITED_ENTRIES, None, 3, seed, true), 4));
             subjects.push((disk_subject(false, seed, false), 4));
-            subjects.push((disk_subject(true, seed, false), 4));
+            // (hashed subdirectories differ from the flat layout in the path only: one level less)
+            subjects.push((disk_subject(true, seed, false), 3));
             // boundary configurations: no entry limit spelled usize::MAX, TTL extremes, the
             // disk cache with its background cleanup
             subjects.push((mem_subject(Lru, usize::MAX, Some(150), 3, seed, false), 4));
